@@ -64,6 +64,37 @@ class LoggingMap(MutableMapping):
         return len(self.d)
 
 
+class HostileMap(LoggingMap):
+    """A caller-supplied cache whose owner evicts entries on its own schedule (TTL, memory pressure, another
+    thread): an entry may vanish between any two operations of one call - here right after a membership test
+    or a get() said it was there, and right after a store."""
+
+    def __init__(self, rng):
+        super().__init__()
+        self.rng = rng
+        self.vanished = 0
+
+    def _maybe_evict(self, k):
+        if k in self.d and self.rng.random() < 0.5:
+            del self.d[k]
+            self.vanished += 1
+
+    def __contains__(self, k):
+        r = k in self.d
+        if r:
+            self._maybe_evict(k)
+        return r
+
+    def get(self, k, default=None):
+        r = self.d.get(k, default)
+        self._maybe_evict(k)
+        return r
+
+    def __setitem__(self, k, v):
+        super().__setitem__(k, v)
+        self._maybe_evict(k)
+
+
 class C14(Check):
     pid = 'C14'
     budget = {'quick': 30.0, 'thorough': 330.0}
@@ -107,7 +138,7 @@ class C14(Check):
             pool += [self._neighbour(rng, p) for p in pool[:2]]
             ln = rng.randint(3, 12)
             seq = [pool[rng.randrange(len(pool))] for _ in range(ln)]
-            cache = rng.choice(['dict', 'map', 'map', 'lru1', 'lru2', 'lru3'])
+            cache = rng.choice(['dict', 'map', 'map', 'lru1', 'lru2', 'lru3', 'hostile', 'hostile'])
             ev = sorted(rng.sample(range(1, ln), min(ln - 1, rng.randint(0, 3)))) if cache == 'map' else []
             yield {'seq': seq, 'cache': cache, 'ev': ev, 'ev_pick': rng.randrange(1000)}
 
@@ -142,6 +173,8 @@ class C14(Check):
 
         ckind = case['cache']
         lru_size = None
+        if ckind == 'hostile':
+            return self.run_hostile(case, res, f, inv)
         if ckind == 'dict':
             cache = None
             cf = A.threadsafe_async_cache(f)
@@ -232,9 +265,55 @@ class C14(Check):
             res.sample = {'cache': ckind, 'events': events[-8:]}
         return res
 
+    def run_hostile(self, case, res, f, inv):
+        """Entries vanish between the operations of a call: what is returned must still be the value computed
+        for this call's own arguments, with at most one computation per call and no exception."""
+        st = res.stats
+        cache = HostileMap(random.Random(case.get('ev_pick', 0)))
+        cf = self.A.threadsafe_async_cache(f, cache=cache)
+        events = []
+
+        async def drive():
+            for ai, kwi in case['seq']:
+                a = tuple(materialise(VALUES[x]) for x in ai)
+                kw = {nm: materialise(VALUES[v]) for nm, v in kwi}
+                before = len(inv)
+                try:
+                    r = await cf(*a, **kw)
+                except BaseException as e:     # noqa
+                    res.violate(f'C14:eviction-raises:{type(e).__name__}',
+                                'an entry evicted from the supplied mapping during a call made the call fail instead of '
+                                'recomputing', call=(repr(a), repr(kw)), exc=repr(e)[:120])
+                    return
+                st['calls'] += 1
+                events.append(('call', repr(a), repr(kw), r))
+                want = (repr(a), repr(sorted(kw.items())))
+                # values are tagged with the arguments that produced them: must be Python-equal arguments
+                if len(inv) - before > 1:
+                    res.violate('C14:recomputed-more-than-once', 'more than one computation for one call',
+                                n=len(inv) - before)
+                    return
+                ra, rk = None, None
+                for (ia, ik) in inv:
+                    if (repr(ia), repr(sorted(ik.items()))) == (r[0], r[1]):
+                        ra, rk = ia, ik
+                        break
+                if ra is None or ra != a or rk != kw:
+                    res.violate('C14:wrong-value', 'value computed for other arguments', call=want, got=r[:2])
+                    return
+
+        self.loop.run_until_complete(drive())
+        st['cache_hostile'] += 1
+        st['entries_vanished_mid_call'] += cache.vanished
+        res.nontrivial = cache.vanished > 0
+        if res.nontrivial:
+            st['nontrivial'] += 1
+            res.sample = {'cache': 'hostile', 'vanished': cache.vanished, 'events': events[:8]}
+        return res
+
     def floors(self, tier):
         k = 1 if tier == 'quick' else 15
-        return {'nontrivial': 20000 * k, 'hits_between_distinct_but_equal_signatures': 15000 * k, 'evictions': 3000 * k,
+        return {'nontrivial': 20000 * k, 'cache_hostile': 3000 * k, 'hits_between_distinct_but_equal_signatures': 15000 * k, 'evictions': 3000 * k,
                 'lru_evictions_predicted': 3000 * k, 'model_hits': 50000 * k, 'model_misses': 50000 * k}
 
 
